@@ -281,6 +281,9 @@ func (r *Report) Finish() int {
 		"repo_functions":      len(r.Prog.RepoFuncs()),
 		"goarch":              r.Prog.GOARCH,
 	}
+	if r.Trusted == nil {
+		cov["trusted_base"] = []string{}
+	}
 	for k, v := range r.Extra {
 		cov[k] = v
 	}
